@@ -28,8 +28,8 @@ HELPERS = {"hlp": {"params": ["a", "b"], "body": [{"k": "ret", "e": {"k": "sub",
            "floor": {"params": ["a"], "body": [{"k": "ret", "e": {"k": "add", "a": {"k": "var", "name": "a"},
                                                                   "b": {"k": "num", "v": {"n": 1, "d": 1}}}}]}}
 # module-level constants of the rendered modules (SbmlRoundTrip.tla FT: K = 3, BIG = 10^10 as an INTEGER literal)
-MODULE_CONSTANTS = "\nK = 3.0\nBIG = 10000000000\n"
-_MODULE_CONST_NAMES = ("K", "BIG")
+MODULE_CONSTANTS = "\nK = 3.0\nBIG = 10000000000\nNEG = -5000000000\n"
+_MODULE_CONST_NAMES = ("K", "BIG", "NEG")
 
 
 def _bare_constants(x):
